@@ -33,8 +33,9 @@ Init == /\ TLCSet(1, 0)
         /\ nadd = 0 /\ nrem = 0
 
 \* a new history; calls of the previous one that never returned are dropped
+\* (whether calls left pending were rightly pending is judged by End, and only
+\* for histories that really ended; a schedule the harness abandoned has no End)
 Reset == /\ l <= Len(Trace) /\ Trace[l].e = "reset"
-         /\ \A p \in Procs : pend[p].s # "lin"
          /\ st' = [q |-> <<>>, closed |-> FALSE, cap |-> Trace[l].cap]
          /\ nadd' = 0 /\ nrem' = 0
          /\ pend' = [p \in Procs |-> Idle]
@@ -54,7 +55,14 @@ InFlight == {pend[q].r.v : q \in {x \in Procs : pend[x].s = "lin" /\ pend[x].op 
 
 Lin(p) == /\ pend[p].s = "inv"
           /\ LET c == pend[p].c
-                 r == IF c.r.t = "missing" /\ c.op \in {"add", "close", "clear"} THEN [t |-> "none"] ELSE c.r IN
+                 \* a call that never returned may still have taken effect: an add / close /
+                 \* clear with the only result they have, a removal with whatever the queue
+                 \* holds at that moment (it has claimed the head without handing it over yet)
+                 r == IF c.r.t # "missing" THEN c.r
+                      ELSE IF c.op \in {"add", "close", "clear"} THEN [t |-> "none"]
+                      ELSE IF c.op = "rem" /\ st.q # <<>> THEN [t |-> "tokok", v |-> Head(st.q), ok |-> TRUE]
+                      ELSE IF c.op = "rem" THEN [t |-> "tokok", v |-> 0, ok |-> FALSE]
+                      ELSE c.r IN
              /\ CanLin(st, c, r, InFlight)
              /\ st' \in Effects(st, c)
              /\ pend' = [pend EXCEPT ![p] = [s |-> "lin", r |-> r, op |-> c.op]]
